@@ -5,6 +5,7 @@ import Summer.Model.Solvers
 import Summer.Model.Derived
 import Summer.Model.TimeFns
 import Summer.Model.Query
+import Summer.Model.Params
 import Summer.Generated.Tableau
 /-
 JSON-lines driver: executes the model's own definitions (the ones the theorems are about) on the
@@ -469,6 +470,10 @@ def handle (io : NumIO Î±) (st : DState Î±) (j : Json) : Except String (DState Î
       let atol := (match jfieldOpt j "atol" with | some (.str s) => (parseRat s).getD Generated.Tableau.solverArgsDefault.2 | _ => Generated.Tableau.solverArgsDefault.2)
       let (outputs, dout) â† runModel io m params solver rtol atol 100000
       pure (st, okJ [("outputs", rmat io outputs), ("derived", rseries io dout)])
+  | "input_params" => do
+      let m â† needModel st
+      pure (st, okJ [("main", .arr ((Params.mainParams m).map Json.str).toArray), ("do", .arr ((Params.doParams m).map Json.str).toArray),
+                     ("params", .arr ((Params.inputParams m).map Json.str).toArray)])
   | "query_comps" => do
       let m â† needModel st
       let name â† (match jfieldOpt j "name" with | none => pure none | some n => do pure (some (â† jstr n)) : P (Option String))
